@@ -41,6 +41,7 @@ func checkArbitrary(b []byte, cutSets [][]int) (panicRes *parseResult, diff stri
 func TestC16_SegArbitrary(t *testing.T) {
 	c := ev.New("C16", "seg-arbitrary", "exploration")
 	t.Cleanup(c.Flush)
+	t.Cleanup(func() { drainExcluded(c) })
 	c.Rule("the byte streams of the containment check (mutated valid streams, token soup, random bytes) fed to PipelineReader.ReadMessages in-package: the reader must not panic (netServe has no recover, a panic is a dead process) and messages/error must be the same uncut, byte-at-a-time (<= 2 KB) and under 3 random k-way cuts. Written bytes are compared unless the stream contains an OPTIONS pre-flight. Panics are collected per top frame and reported once per root cause at the end (the search continues). Non-trivial: the stream is malformed (parse error or a mutation applied) and yields at least one message; distinct by (mutations, error text, number of messages capped at 8).")
 	crashes := map[string]fuzzInput{}
 	t.Cleanup(func() {
